@@ -109,8 +109,20 @@ class StageHarness(Harness):
         raise NotImplementedError
 
     def with_foreign_child(self, main):
-        """C19: the calling process may own other live children (an idle helper started earlier) while
+        """Process-level circumstances of the caller (C19, C03).  C19: the calling process may own other live children (an idle helper started earlier) while
         the stage runs; failure detection must not depend on how many children the process has."""
+        if getattr(self, "quiet_messages", False):
+            # the documented public switch that `toasty pipeline process-todos` turns off for the rest of the
+            # process: error reporting must not depend on it
+            inner0 = main
+
+            def main_q():
+                from toasty import par_util
+
+                par_util.SHOW_INFORMATIONAL_MESSAGES = False
+                return inner0()
+
+            main = main_q
         if not getattr(self, "foreign_child", False):
             return main
 
@@ -225,7 +237,7 @@ class VisitLeaves(StageHarness):
             else:
                 pyr.visit_leaves(cb, parallel=W)
 
-        return main, mon, None
+        return self.with_foreign_child(main), mon, None
 
 
 class Walk(StageHarness):
@@ -331,7 +343,7 @@ class Transform(StageHarness):
             else:
                 transform._do_a_transform(("INPUT-PYRAMID",), depth, make_buf, do_one, pio_out=("OUTPUT-PYRAMID",), parallel=W)
 
-        return main, mon, None
+        return self.with_foreign_child(main), mon, None
 
 
 class ListCollection(object):
@@ -478,7 +490,7 @@ class MultiTan(_TileStage):
             else:
                 proc.tile(pio, parallel=W)
 
-        return main, mon, root
+        return self.with_foreign_child(main), mon, root
 
 
 def _fake_reproject(input_data, output_projection=None, shape_out=None, return_footprint=False, **kw):
@@ -525,7 +537,7 @@ class MultiWcs(_TileStage):
             else:
                 proc.tile(pio, _fake_reproject, parallel=W)
 
-        return main, mon, root
+        return self.with_foreign_child(main), mon, root
 
 
 # ---------------------------------------------------------------------------------------
